@@ -91,7 +91,13 @@ pub(crate) mod verif_kani {
     // running the REAL function bodies against this recording AEAD is sound for every AEAD.
     #[derive(Clone)]
     pub struct ModelImpl;
-    pub(crate) fn model_reset(fail: bool) { unsafe { FAIL = fail; CALLS = 0; LAST_NONCE = [0; 12]; } }
+    pub(crate) fn model_reset(fail: bool) { unsafe { FAIL = fail; CALLS = 0; LAST_NONCE = [0; 12]; LAST_AAD = (core::ptr::null(), 0); } }
+    /// (address, length) of the associated data the AEAD was last called with
+    pub(crate) fn model_last_aad() -> (*const u8, usize) { unsafe { LAST_AAD } }
+    static mut LAST_AAD: (*const u8, usize) = (core::ptr::null(), 0);
+    /// associated data for the state-machine harnesses: any prefix of this block, so lengths up to 70000 are covered
+    /// (the model AEAD never reads the bytes; identity of the slice handed to the AEAD is checked by address and length)
+    static BIG_AAD: [u8; 70000] = [0u8; 70000];
     pub(crate) fn model_calls() -> u32 { unsafe { CALLS } }
     pub(crate) fn model_last_nonce() -> [u8; 12] { unsafe { LAST_NONCE } }
     static mut LAST_NONCE: [u8; 12] = [0; 12];
@@ -108,6 +114,7 @@ pub(crate) mod verif_kani {
         fn encrypt_in_place_detached(&self, nonce: &aead::Nonce<Self>, _aad: &[u8], buf: &mut [u8]) -> Result<aead::Tag<Self>, aead::Error> {
             unsafe {
                 CALLS += 1;
+                LAST_AAD = (_aad.as_ptr(), _aad.len());
                 let mut i = 0;
                 while i < 12 { LAST_NONCE[i] = nonce[i]; i += 1; }
                 if FAIL { return Err(aead::Error); }
@@ -123,6 +130,7 @@ pub(crate) mod verif_kani {
         fn decrypt_in_place_detached(&self, nonce: &aead::Nonce<Self>, _aad: &[u8], buf: &mut [u8], tag: &aead::Tag<Self>) -> Result<(), aead::Error> {
             unsafe {
                 CALLS += 1;
+                LAST_AAD = (_aad.as_ptr(), _aad.len());
                 let mut i = 0;
                 while i < 12 { LAST_NONCE[i] = nonce[i]; i += 1; }
                 if FAIL { return Err(aead::Error); }
@@ -149,15 +157,13 @@ pub(crate) mod verif_kani {
             let mut i = 0;
             while i < nn { base.0[i] = kani::any(); i += 1; }
         }
-        AeadCtx {
-            overflowed: kani::any(),
-            encryptor: enc,
-            base_nonce: base,
-            exporter_secret: <ExporterSecret<HkdfSha256> as Default>::default(),
-            seq: Seq(kani::any()),
-            src_kem: PhantomData,
-            suite_id: [0u8; 10],
-        }
+        // built by the crate's own constructor, then the two state fields are made symbolic (a struct literal here would stop
+        // compiling as soon as a change adds a field)
+        let mut c = AeadCtx::<A, HkdfSha256, K>::new(&AeadKey::<A>::default(), base, <ExporterSecret<HkdfSha256> as Default>::default());
+        let _ = enc;
+        c.overflowed = kani::any();
+        c.seq = Seq(kani::any());
+        c
     }
 
     /// the real seal_in_place_detached over ALL (seq, overflowed, base_nonce, AEAD success/failure):
@@ -176,7 +182,11 @@ pub(crate) mod verif_kani {
         let fail: bool = kani::any();
         unsafe { FAIL = fail; CALLS = 0; }
         let mut pt = [7u8, 9u8, 11u8];
-        let r = ctx.seal_in_place_detached(&mut pt, b"aad");
+        let alen: usize = kani::any();
+        kani::assume(alen <= 70000);
+        let aad = &BIG_AAD[..alen];
+        let r = ctx.seal_in_place_detached(&mut pt, aad);
+        kani::cover!(alen == 70000 && !ov0);
         kani::cover!(seq0 == u64::MAX && !ov0 && !fail);
         kani::cover!(ov0);
         if ov0 {
@@ -186,6 +196,8 @@ pub(crate) mod verif_kani {
             assert!(ctx.0.seq.0 == seq0 && ctx.0.overflowed);
         } else {
             assert!(unsafe { CALLS } == 1);
+            // the AEAD is given exactly the caller's associated data (C06: all of it is authenticated)
+            assert!(model_last_aad() == (aad.as_ptr(), alen));
             let mut i = 0;
             while i < 12 {
                 assert!(unsafe { LAST_NONCE[i] } == base0[i] ^ i2osp_byte(seq0, 12, i));
@@ -224,7 +236,12 @@ pub(crate) mod verif_kani {
         let mut i = 0;
         while i < 16 { tag.0[i] = if good { 0xA5 } else { 0x00 }; i += 1; }
         let mut ct = [8u8, 10u8];
-        let r = ctx.open_in_place_detached(&mut ct, b"aad", &tag);
+        let alen: usize = kani::any();
+        kani::assume(alen <= 70000);
+        let aad = &BIG_AAD[..alen];
+        let r = ctx.open_in_place_detached(&mut ct, aad, &tag);
+        kani::cover!(alen == 70000 && !ov0 && good);
+        if !ov0 { assert!(unsafe { CALLS } == 1 && model_last_aad() == (aad.as_ptr(), alen)); }
         kani::cover!(seq0 == u64::MAX && !ov0 && good);
         if ov0 {
             assert!(r.err() == Some(HpkeError::MessageLimitReached));
@@ -279,12 +296,106 @@ pub(crate) mod verif_kani {
         core::mem::forget(ctx);
     }
 
+    fn ctx_from(seq: u64, ov: bool, base: &[u8; 12]) -> AeadCtx<ModelAead, HkdfSha256, K> {
+        let mut b = AeadNonce::<ModelAead>::default();
+        let mut i = 0;
+        while i < 12 { b.0[i] = base[i]; i += 1; }
+        let mut c = AeadCtx::<ModelAead, HkdfSha256, K>::new(&AeadKey::<ModelAead>::default(), b, <ExporterSecret<HkdfSha256> as Default>::default());
+        c.overflowed = ov;
+        c.seq = Seq(seq);
+        c
+    }
+
+    /// C14, RELATIONAL (BOUNDED: |pt| <= 4): from the same context state (all seq, overflowed, base_nonce; AEAD succeeding or
+    /// failing) the allocating seal and seal_in_place_detached agree: same Ok/Err and error, output = in-place ciphertext || tag,
+    /// same state afterwards.  Nothing here refers to the RFC: a deviation common to both forms is not this harness's business.
+    #[cfg(any(feature = "alloc", feature = "std"))]
+    #[kani::proof]
+    #[kani::stub(zeroize::optimization_barrier, noop_barrier)]
+    #[kani::unwind(34)]
+    fn seal_forms_agree_bounded() {
+        let seq0: u64 = kani::any();
+        let ov0: bool = kani::any();
+        let base: [u8; 12] = kani::any();
+        let mut c1: AeadCtxS<ModelAead, HkdfSha256, K> = ctx_from(seq0, ov0, &base).into();
+        let mut c2: AeadCtxS<ModelAead, HkdfSha256, K> = ctx_from(seq0, ov0, &base).into();
+        let fail: bool = kani::any();
+        model_reset(fail);
+        let len: usize = kani::any();
+        kani::assume(len <= 4);
+        let ptbuf: [u8; 4] = kani::any();
+        let r1 = c1.seal(&ptbuf[..len], b"aad");
+        let n1 = model_last_nonce();
+        let mut buf2 = ptbuf;
+        let r2 = c2.seal_in_place_detached(&mut buf2[..len], b"aad");
+        let n2 = model_last_nonce();
+        kani::cover!(ov0);
+        kani::cover!(!ov0 && !fail && len == 4);
+        kani::cover!(!ov0 && seq0 == u64::MAX);
+        match (r1, r2) {
+            (Ok(v), Ok(tag)) => {
+                assert!(v.len() == len + 16);
+                let mut i = 0;
+                while i < len { assert!(v[i] == buf2[i]); i += 1; }
+                let mut i = 0;
+                while i < 16 { assert!(v[len + i] == tag.0[i]); i += 1; }
+                assert!(n1 == n2);
+            }
+            (Err(e1), Err(e2)) => assert!(e1 == e2),
+            _ => assert!(false),
+        }
+        assert!(c1.0.seq.0 == c2.0.seq.0 && c1.0.overflowed == c2.0.overflowed);
+        core::mem::forget(c1); core::mem::forget(c2);
+    }
+
+    /// C14, RELATIONAL (BOUNDED: |ct||tag| <= 20): open vs open_in_place_detached from the same state on the same bytes
+    #[cfg(any(feature = "alloc", feature = "std"))]
+    #[kani::proof]
+    #[kani::stub(zeroize::optimization_barrier, noop_barrier)]
+    #[kani::unwind(34)]
+    fn open_forms_agree_bounded() {
+        let seq0: u64 = kani::any();
+        let ov0: bool = kani::any();
+        let base: [u8; 12] = kani::any();
+        let mut c1: AeadCtxR<ModelAead, HkdfSha256, K> = ctx_from(seq0, ov0, &base).into();
+        let mut c2: AeadCtxR<ModelAead, HkdfSha256, K> = ctx_from(seq0, ov0, &base).into();
+        model_reset(false);
+        let len: usize = kani::any();
+        kani::assume(len >= 16 && len <= 20);
+        let buf: [u8; 20] = kani::any();
+        let r1 = c1.open(&buf[..len], b"aad");
+        let n1 = model_last_nonce();
+        let mut ct2 = [0u8; 4];
+        let mut i = 0;
+        while i < len - 16 { ct2[i] = buf[i]; i += 1; }
+        let mut tag = AeadTag::<ModelAead>::default();
+        let mut i = 0;
+        while i < 16 { tag.0[i] = buf[len - 16 + i]; i += 1; }
+        let r2 = c2.open_in_place_detached(&mut ct2[..len - 16], b"aad", &tag);
+        let n2 = model_last_nonce();
+        kani::cover!(ov0);
+        kani::cover!(!ov0 && r1.is_ok() && len == 20);
+        kani::cover!(!ov0 && r1.is_err());
+        match (r1, r2) {
+            (Ok(v), Ok(())) => {
+                assert!(v.len() == len - 16);
+                let mut i = 0;
+                while i < len - 16 { assert!(v[i] == ct2[i]); i += 1; }
+                assert!(n1 == n2);
+            }
+            (Err(e1), Err(e2)) => assert!(e1 == e2),
+            _ => assert!(false),
+        }
+        assert!(c1.0.seq.0 == c2.0.seq.0 && c1.0.overflowed == c2.0.overflowed);
+        core::mem::forget(c1); core::mem::forget(c2);
+    }
+
     // ------------------------------------------------------------------ AeadTag (de)serialization
     /// discharges the Verus-assumed contract of AeadTag::write_exact (exact-length copy of the tag bytes)
     #[kani::proof]
     #[kani::stub(zeroize::optimization_barrier, noop_barrier)]
     #[kani::unwind(18)]
-    fn write_exact_tag() {
+    fn write_exact_tag_copies() {
         let mut tag = AeadTag::<ChaCha20Poly1305>::default();
         let mut i = 0;
         while i < 16 { tag.0[i] = kani::any(); i += 1; }
@@ -295,7 +406,9 @@ pub(crate) mod verif_kani {
         assert!(AeadTag::<ChaCha20Poly1305>::size() == 16);
         assert!(AeadTag::<AesGcm128>::size() == 16 && AeadTag::<AesGcm256>::size() == 16 && AeadTag::<ExportOnlyAead>::size() == 0);
     }
-    /// C12: writing into a caller buffer panics exactly when its length differs (range 0..=2*size+2)
+    /// C12: writing into a caller buffer panics exactly when its length differs (range 0..=2*size+2).
+    /// `should_panic` alone only demands SOME panicking path; the sentinel cover after the call must in addition be
+    /// unreachable (tools/kani_run.py `must_not_return`), so EVERY wrong length panics.
     #[kani::proof]
     #[kani::stub(zeroize::optimization_barrier, noop_barrier)]
     #[kani::unwind(36)]
@@ -306,6 +419,80 @@ pub(crate) mod verif_kani {
         kani::assume(len <= 34 && len != 16);
         let mut out = [0u8; 34];
         tag.write_exact(&mut out[..len]);
+        kani::cover!(true, "VERIF_RETURNED");
+    }
+    /// as above for the zero-length tag of the export-only AEAD (buffer lengths 1..=2)
+    #[kani::proof]
+    #[kani::stub(zeroize::optimization_barrier, noop_barrier)]
+    #[kani::unwind(4)]
+    #[kani::should_panic]
+    fn write_exact_tag_exportonly_wrong_len_panics() {
+        let tag = AeadTag::<ExportOnlyAead>::default();
+        let len: usize = kani::any();
+        kani::assume(len >= 1 && len <= 2);
+        let mut out = [0u8; 2];
+        tag.write_exact(&mut out[..len]);
+        kani::cover!(true, "VERIF_RETURNED");
+    }
+
+    // ------------------------------------------------------------------ C11 / C18 / C13: export
+    // The real export -> LabeledExpand::labeled_expand bodies, with HKDF itself scripted (it is a dependency): the stand-in
+    // for Hkdf::expand_multi_info checks what it is handed - [I2OSP(L, 2), "HPKE-v1", suite_id, "sec", exporter_context], the
+    // exporter context being the caller's slice itself (address and length) - and answers like HKDF-Expand: Err iff L > 255*Nh.
+    static mut EXP_INFO_OK: bool = true;
+    static mut EXP_CTX: (*const u8, usize) = (core::ptr::null(), 0);
+    static mut EXP_CALLS: u32 = 0;
+    static mut EXP_OUT: [u8; 70000] = [0u8; 70000];
+    fn from_prk_script<H, I>(_prk: &[u8]) -> Result<hkdf::Hkdf<H, I>, hkdf::InvalidPrkLength>
+    where H: digest::OutputSizeUser, I: hkdf::HmacImpl<H>,
+    {
+        // never read (expand_multi_info is scripted); a real one would run SHA-2, whose CPU-feature probe is inline asm
+        Ok(unsafe { core::mem::MaybeUninit::<hkdf::Hkdf<H, I>>::zeroed().assume_init() })
+    }
+    fn emi_export<H, I>(_h: &hkdf::Hkdf<H, I>, infos: &[&[u8]], okm: &mut [u8]) -> Result<(), hkdf::InvalidLength>
+    where H: digest::OutputSizeUser, I: hkdf::HmacImpl<H>,
+    {
+        let l = okm.len();
+        unsafe {
+            EXP_CALLS += 1;
+            let ok = infos.len() == 5
+                && infos[0].len() == 2 && infos[0][0] == (l >> 8) as u8 && infos[0][1] == (l & 0xff) as u8
+                && infos[1].len() == 7 && infos[1][0] == b'H' && infos[1][6] == b'1'
+                && infos[2].len() == 10
+                && infos[3].len() == 3 && infos[3][0] == b's' && infos[3][1] == b'e' && infos[3][2] == b'c'
+                && (infos[4].as_ptr(), infos[4].len()) == EXP_CTX;
+            if !ok { EXP_INFO_OK = false; }
+        }
+        if l > 255 * 32 { Err(hkdf::InvalidLength) } else { Ok(()) }
+    }
+    /// export over ALL exporter-context lengths and output lengths up to 70000 (so 255*Nh = 8160 and 2^16 are interior points),
+    /// twice on the same context: the result depends on L alone (Ok iff L <= 255*Nh, else KdfOutputTooLong, never a panic),
+    /// the second call is not influenced by the first (no hidden state), the whole exporter context reaches HKDF, the
+    /// context's sequence state is untouched
+    #[kani::proof]
+    #[kani::unwind(34)]
+    #[kani::stub(zeroize::optimization_barrier, noop_barrier)]
+    #[kani::stub(hkdf::Hkdf::from_prk, from_prk_script)]
+    #[kani::stub(hkdf::Hkdf::expand_multi_info, emi_export)]
+    fn export_limit_and_history() {
+        let ctx: AeadCtxR<ModelAead, HkdfSha256, K> = any_ctx2::<ModelAead>(ModelImpl, false).into();
+        let (seq0, ov0) = (ctx.0.seq.0, ctx.0.overflowed);
+        let clen: usize = kani::any();
+        kani::assume(clen <= 70000);
+        let ectx = &BIG_AAD[..clen];
+        unsafe { EXP_CTX = (ectx.as_ptr(), clen); EXP_INFO_OK = true; EXP_CALLS = 0; }
+        let l1: usize = kani::any();
+        let l2: usize = kani::any();
+        kani::assume(l1 <= 70000 && l2 <= 70000);
+        let r1 = ctx.export(ectx, unsafe { &mut EXP_OUT[..l1] });
+        let r2 = ctx.export(ectx, unsafe { &mut EXP_OUT[..l2] });
+        kani::cover!(l1 == 8160 && l2 == 8161);
+        kani::cover!(l1 == 65536 && clen == 70000);
+        assert!(r1 == if l1 <= 8160 { Ok(()) } else { Err(HpkeError::KdfOutputTooLong) });
+        assert!(r2 == if l2 <= 8160 { Ok(()) } else { Err(HpkeError::KdfOutputTooLong) });
+        assert!(unsafe { EXP_INFO_OK });
+        assert!(ctx.0.seq.0 == seq0 && ctx.0.overflowed == ov0);
+        core::mem::forget(ctx);
     }
 
     // ------------------------------------------------------------------ export-only suite
@@ -319,6 +506,7 @@ pub(crate) mod verif_kani {
         ctx.0.overflowed = false;
         let mut pt = [1u8, 2u8];
         let _ = ctx.seal_in_place_detached(&mut pt, b"");
+        kani::cover!(true, "VERIF_RETURNED");
     }
     #[kani::proof]
     #[kani::stub(zeroize::optimization_barrier, noop_barrier)]
@@ -330,6 +518,7 @@ pub(crate) mod verif_kani {
         let mut ct = [1u8, 2u8];
         let tag = AeadTag::<ExportOnlyAead>::default();
         let _ = ctx.open_in_place_detached(&mut ct, b"", &tag);
+        kani::cover!(true, "VERIF_RETURNED");
     }
 
     // ------------------------------------------------------------------ C16: wiped on drop
@@ -387,10 +576,23 @@ pub(crate) mod verif_kani {
     #[kani::stub(zeroize::optimization_barrier, noop_barrier)]
     #[kani::unwind(34)]
     fn drop_wipes_ctx_fields() {
-        use core::mem::MaybeUninit;
+        use core::mem::{size_of, MaybeUninit};
+        // the obligation below names the two secret fields the context has today; if the context grows (a new field that could
+        // hold a copy of either secret) it has to be restated, which no harness can do by itself: no verdict in that case
+        let known = size_of::<bool>() + size_of::<ModelImpl>() + size_of::<AeadNonce<ModelAead>>() + size_of::<ExporterSecret<HkdfSha256>>()
+            + size_of::<Seq>() + 10;
+        if size_of::<AeadCtx<ModelAead, HkdfSha256, K>>() > (known + 7) / 8 * 8 {
+            assert!(false, "VERIF_UNDECIDED the encryption context has grown a field: restate the wipe-on-drop obligation for it");
+            return;
+        }
         let mut ctx = any_ctx::<ModelAead>(ModelImpl);
         let mut i = 0;
         while i < 32 { ctx.exporter_secret.0[i] = kani::any(); i += 1; }
+        // a context that has been USED: one seal attempt before it is dropped
+        let used: bool = kani::any();
+        let mut ctx: AeadCtxS<ModelAead, HkdfSha256, K> = ctx.into();
+        if used { model_reset(false); let mut pt = [1u8, 2u8]; let _ = ctx.seal_in_place_detached(&mut pt, b"a"); }
+        let ctx = ctx.0;
         let mut slot: MaybeUninit<AeadCtxS<ModelAead, HkdfSha256, K>> = MaybeUninit::uninit();
         slot.write(ctx.into());
         let p = slot.as_mut_ptr();
